@@ -54,9 +54,11 @@ LEVELS = {
             "Coq theorems on a Gallina model + exact differential correspondence"),
     "C13": ("theorems: forward/backward finite-difference formula over the real time stamps, zero for untracked vertices, placement of velocity components in the junction's own rows (all else zero), static mode zero; adimensional mode: the normaliser is the mean speed of ALL used junctions (n x mean = sum of speeds; a resting or untracked junction counts), one in dimensional mode; exact rational correspondence on dyadic series, PrimFloat correspondence of the normalisation step", "5/C13",
             "Coq theorems on a Gallina model + exact differential correspondence"),
-    "C16": ("theorems: used interfaces = internal interfaces minus those flagged at both ends (order kept), exclusion iff both ends "
-            "flagged, nothing flagged => nothing excluded, re-insertion puts -1 exactly at the excluded positions and the restricted "
-            "solution in order elsewhere; flags recomputed from all pairs of directions and restricted-system solution compared by the oracle",
+    "C16": ("theorems: a junction is flagged exactly when some pair (any two positions) of its interface directions opens by at least the limit "
+            "(clipped dot <= cos(limit)); used interfaces = internal interfaces minus those flagged at both ends (order kept), exclusion iff both "
+            "ends flagged, nothing flagged => nothing excluded, re-insertion puts -1 exactly at the excluded positions and the restricted "
+            "solution in order elsewhere; flagging rule, restriction and re-alignment tied to the code by correspondence (PrimFloat for the "
+            "flags); restricted-system solution compared with an independent solve by the oracle",
             "5/C16", "Coq theorems on a Gallina model + differential correspondence + independent restricted solve"),
     "C02": ("theorems: one unknown per internal interface, row pairs exactly for the junctions whose equations received >=3 (<4 "
             "with ignore_four) coefficient pairs at rows 2k/2k+1, placement of versors by eid_from_vertex (under H_col), the "
